@@ -19,8 +19,11 @@ Record tcase := mkTls {
   t_configured : bool;             (* transport has a TLS configuration *)
   t_scheme : option string;
   t_host : option string;          (* uri.host(): IPv6 literals bracketed *)
+  t_hosthdr : option string;       (* Host header already present in the request parts handed to the
+                                      transport (set by the caller); no function below reads it: the
+                                      server name offered and checked is the URI host whatever it says *)
   t_hk : hostkind;                 (* O6 *)
-  t_covered : bool;                (* the certificate the server presents covers this name (O6) *)
+  t_covered : bool;                (* the certificate the server presents covers the URI host [t_host] (O6) *)
   t_cert : cert;
   t_salpn : alpnopt;               (* server ALPN list: none | h2,http/1.1 | http/1.1 *)
   t_calpn : alpnopt;               (* client ALPN list: none | h2,http/1.1 *)
